@@ -231,7 +231,7 @@ pub fn run(args: &Args) -> i32 {
                     return;
                 }
                 Err(e) => {
-                    report.harness_error(&format!("case {case}: write: {e:?}"));
+                    op_failed(&report, &format!("case {case}: write: {e:?}"));
                     return;
                 }
             };
@@ -240,7 +240,7 @@ pub fn run(args: &Args) -> i32 {
             let out = match run_scan(&ds, &Query::default(), &Knobs { use_stats: Some(false), ..Default::default() }).await {
                 Ok(o) => o,
                 Err(e) => {
-                    report.harness_error(&format!("case {case}: readback: {e:?}"));
+                    op_failed(&report, &format!("case {case}: readback: {e:?}"));
                     return;
                 }
             };
@@ -297,7 +297,7 @@ pub fn run(args: &Args) -> i32 {
             let df = match DfRef::new(m.to_batch()) {
                 Ok(d) => d,
                 Err(e) => {
-                    report.harness_error(&format!("case {case}: datafusion reference: {e}"));
+                    op_failed(&report, &format!("case {case}: datafusion reference: {e}"));
                     return;
                 }
             };
@@ -317,7 +317,7 @@ pub fn run(args: &Args) -> i32 {
                         ids
                     }
                     RefOutcome::HarnessError(e) => {
-                        report.harness_error(&format!("case {case} p{pi}: {e}; table {table_desc}"));
+                        op_failed(&report, &format!("case {case} p{pi}: {e}; table {table_desc}"));
                         continue;
                     }
                 };
